@@ -1,5 +1,6 @@
 pub mod c01;
 pub mod c02;
+pub mod c03;
 pub mod c04;
 pub mod c05;
 pub mod c06;
@@ -18,6 +19,7 @@ fn table(id: &str) -> Option<(Run, Judge, &'static str, &'static [&'static str])
     match id {
         "C01" => Some((c01::run, c01::judge, c01::RULE, c01::ASSUMPTIONS)),
         "C02" => Some((c02::run, c02::judge, c02::RULE, c02::ASSUMPTIONS)),
+        "C03" => Some((c03::run, c03::judge, c03::RULE, c03::ASSUMPTIONS)),
         "C04" => Some((c04::run, c04::judge, c04::RULE, c04::ASSUMPTIONS)),
         "C05" => Some((c05::run, c05::judge, c05::RULE, c05::ASSUMPTIONS)),
         "C07" => Some((c07::run, c07::judge, c07::RULE, c07::ASSUMPTIONS)),
@@ -77,6 +79,10 @@ pub fn dispatch(ctx: &Ctx, replay: Option<&str>) -> i32 {
 }
 
 pub fn render_case(case: &Value) {
+    if let Ok(m) = serde_json::from_value::<crate::pygen::PModule>(case.clone()) {
+        print!("{}", crate::pygen::render_module(&m));
+        return;
+    }
     if let Ok(h) = serde_json::from_value::<crate::hist::History>(case.clone()) {
         let cfg = crate::props::c06::cfg();
         let mut it = crate::hist::Interp::new(&cfg, &h.ws);
